@@ -179,6 +179,7 @@ type histCfg struct {
 	opsEach  int
 	pairMode bool
 	rebuild  bool
+	big      bool // the store also holds 2300 unrelated signatures: RebuildIndexes works in several chunks
 }
 
 var ids = []string{"X", "Y"}
@@ -190,6 +191,20 @@ func pebbleHistory(res *evid.Result, cfg histCfg) {
 		return
 	}
 	defer db.Close()
+	if cfg.big {
+		// unrelated signatures that sort BEFORE X and Y, far from the probe in every index: a
+		// rebuild reaches X and Y only after it has committed two chunks of 1000
+		var fill []*detection.Signature
+		for i := 0; i < 2300; i++ {
+			fill = append(fill, &detection.Signature{ID: fmt.Sprintf("F%05d", i), Name: "filler", Severity: "LOW",
+				TopologyHash: fmt.Sprintf("f111e4%026x", i), FuzzyHash: "B7L7BR7P7R7", EntropyScore: probe.EntropyScore + 3 + float64(i%50)/100, EntropyTolerance: 0.01, NodeCount: 3})
+		}
+		if err := db.AddSignatures(fill); err != nil {
+			res.Violate("op-result/AddSignatures", err.Error(), nil)
+			return
+		}
+		res.Count("histories_with_chunked_rebuild", 1)
+	}
 	start := time.Now()
 	now := func() int64 { return int64(time.Since(start)) }
 	n := cfg.writers + cfg.readers
@@ -359,6 +374,9 @@ func writerOp(db *pebbledb.PebbleScanner, r *rand.Rand, c, i int, cfg histCfg, n
 		return
 	}
 	k := r.Intn(20)
+	if cfg.big && c == 0 {
+		k = 16 // the first writer of a chunked-rebuild history does nothing but rebuild
+	}
 	id := ids[r.Intn(2)]
 	switch {
 	case k < 9:
@@ -910,7 +928,7 @@ func child() {
 	sem := make(chan struct{}, 4) // few histories at a time: each one is itself a crowd of goroutines
 	for i := 0; i < nh; i++ {
 		r := evid.Rand(int64(11000 + i))
-		cfg := histCfg{idx: i, writers: 2 + r.Intn(3), readers: 2 + r.Intn(7), opsEach: 12 + r.Intn(25), pairMode: i%6 == 5, rebuild: i%4 == 1}
+		cfg := histCfg{idx: i, writers: 2 + r.Intn(3), readers: 2 + r.Intn(7), opsEach: 12 + r.Intn(25), pairMode: i%6 == 5, rebuild: i%4 == 1 || i%8 == 7, big: i%8 == 7}
 		wg.Add(1)
 		sem <- struct{}{}
 		go func() {
